@@ -12,6 +12,12 @@ denotes (C11Executor.config_object: module-level frozen-dataclass instance, fiel
 argument).  (2) C11Executor._filter_loop: an entry loop over a lazily filtered sequence (generator expression, one-line filter
 helper, filter / itertools.filterfalse) is executed as the loop-with-continue it is, under the LoopSpec of the original statement.
 Whatever is read off a code shape and not recognised is `unknown` (native replay decides), never a definite verdict.
+
+Round 7: the consumers of the guard are under deductive contracts too (contracts/C11_ctx.py): ZipContext.__init__ and every method
+that touches the handle (class invariant: the kept handle is an open container ACCEPTED under the configured limits), the zip_utils
+readers, encryption.is_odf_encrypted.  Member accesses (ZipFile.read / open / namelist ...) are assumed library calls whose
+precondition `accepted and open` is a proved call-pre obligation.  `limits_param(fn).default` now also serves calls from other
+modules of the package (evaluated in the guard module).
 """
 import z3
 
@@ -260,17 +266,23 @@ def limits_param(fn_name):
     def default(ex, st):
         from pyvc.ops import Unsupported
         import ast as _ast
-        node = ex.module.functions.get(fn_name) if ex.module.rel == ZB else None
+        gex = ex
+        if ex.module.rel != ZB:
+            # round 7: a call from another module of the package (ZipContext, the ODF probe) -- the default is still what the
+            # guard module's own signature says, evaluated in the guard module (one configuration object per path)
+            from contracts import C11_ctx
+            gex = C11_ctx.guard_executor(ex)
+        node = gex.module.functions.get(fn_name)
         if node is None:
-            raise Unsupported(f"default of `limits` of {fn_name}: called from another module")
+            raise Unsupported(f"default of `limits` of {fn_name}: the guard module has no such function")
         a = node.args
         dflt = None
         for arg, d in list(zip(a.kwonlyargs, a.kw_defaults)) + list(zip((a.posonlyargs + a.args)[::-1], a.defaults[::-1])):
             if arg.arg == "limits":
                 dflt = d
         v = None
-        if isinstance(dflt, _ast.Name) and hasattr(ex, "config_object"):
-            v = ex.config_object(dflt.id, st)
+        if isinstance(dflt, _ast.Name) and hasattr(gex, "config_object"):
+            v = gex.config_object(dflt.id, st)
         if v is None:
             raise Unsupported(f"call of {fn_name} without `limits`: its default "
                               f"`{_ast.unparse(dflt) if dflt is not None else '<none>'}` is not a readable configuration object")
@@ -380,6 +392,14 @@ def _contracts(reg):
         result_maker=_fresh_open_zip,
         modifies=("file_like",),
     ))
+    # round 7: the consumers of the guard under deductive contracts (ZipContext and its methods, the zip_utils readers, the ODF
+    # encryption probe): contracts/C11_ctx.py
+    try:
+        from contracts import C11_ctx
+        out.extend(C11_ctx.contracts(reg))
+    except Exception as e:  # noqa -- the sidecar does not line up with the code: the dataflow typestate + replay still decide
+        import sys
+        print(f"C11_ctx: contracts not registered ({type(e).__name__}: {e})", file=sys.stderr)
     return out
 
 
@@ -1039,9 +1059,74 @@ class C11Executor(_verify.Executor):
         st.ghost["c11!folds"] = st.ghost.get("c11!folds", ()) + (CNT,)
         return [(st, VSeq(CNT(zf, nz), elem, "ZipInfo", tag=("c11!filtered", comp)))]
 
+    # -- round 7: `type(<object>).__name__` (the `source` label ZipContext hands to the guard: the name of the dynamic class, a
+    #    subclass as a rule) is SOME string -- it only ever reaches messages; `type` resolved as the builtin (not shadowed).
+    def e_Attribute(self, n, st):
+        import ast as _ast
+        from pyvc.values import VStr
+        v = n.value
+        if n.attr == "__name__" and isinstance(v, _ast.Call) and isinstance(v.func, _ast.Name) and v.func.id == "type" and len(v.args) == 1 \
+                and not v.keywords and not isinstance(v.args[0], _ast.Starred) and st.lookup("type") is None \
+                and "type" not in self.module.functions and "type" not in self.module.assigns and "type" not in self.module.imports \
+                and "type" not in self.module.classes:
+            return [(s2, VStr(z3.String(fresh_name("clsname")))) for (s2, _obj) in self.ev(v.args[0], st)]
+        return super().e_Attribute(n, st)
+
+    # -- round 7: a collection built from the entry-name list of a container (`set(zf.namelist())`) is total (a list of str): an
+    #    abstract name collection again, not an arbitrary library call.
+    def b_collection(self, st, name, args, node):
+        if len(args) == 1 and isinstance(args[0], VExt) and args[0].sort == "ZipNames" and name in ("set", "frozenset", "list", "tuple"):
+            return [(st, VExt("ZipNames"))]
+        return super().b_collection(st, name, args, node)
+
+    # -- round 7: `any(<comprehension over an UNKNOWN library value>)` / `all(...)` (the ODF probe scanning the parsed manifest:
+    #    `any(e.tag... for e in root.iter())`) is an arbitrary library computation: some Boolean, may raise anything -- provided
+    #    the comprehension cannot touch a container, a stream or any heap object: every name it loads is its own target or a
+    #    local holding an unknown / scalar value, and it calls no function of the package.
+    def _opaque_any(self, n, st):
+        import ast as _ast
+        from pyvc.values import VStr, VReal
+        if not (isinstance(n.func, _ast.Name) and n.func.id in ("any", "all") and len(n.args) == 1 and not n.keywords
+                and isinstance(n.args[0], (_ast.GeneratorExp, _ast.ListComp)) and st.lookup(n.func.id) is None
+                and n.func.id not in self.module.functions and n.func.id not in self.module.assigns and n.func.id not in self.module.imports):
+            return None
+        comp = n.args[0]
+        if len(comp.generators) != 1 or comp.generators[0].is_async:
+            return None
+        g = comp.generators[0]
+        root = g.iter
+        while isinstance(root, (_ast.Attribute, _ast.Call)):
+            if isinstance(root, _ast.Call):
+                if root.args or root.keywords:
+                    return None
+                root = root.func
+            else:
+                root = root.value
+        if not (isinstance(root, _ast.Name) and isinstance(st.lookup(root.id), VUnk)):
+            return None
+        own = {x.id for x in _ast.walk(g.target) if isinstance(x, _ast.Name)}
+        for part in [comp.elt] + list(g.ifs):
+            for x in _ast.walk(part):
+                if isinstance(x, (_ast.Lambda, _ast.NamedExpr, _ast.Await, _ast.Yield, _ast.YieldFrom, _ast.GeneratorExp, _ast.ListComp,
+                                  _ast.SetComp, _ast.DictComp)):
+                    return None
+                if isinstance(x, _ast.Name) and x.id not in own:
+                    v = st.lookup(x.id)
+                    if not isinstance(v, (VUnk, VInt, VBool, VStr, VReal, VNoneT)):
+                        return None
+        outs = []
+        for (s2, it) in self.ev(g.iter, st):
+            if not isinstance(it, VUnk):
+                self.unsupported(n, "any()/all() over a library value that is not unknown")
+            self.exc_any(s2.fork(), f"{self.loc(n)} {n.func.id}(<scan of an unknown library value>)")
+            outs.append((s2, VBool(z3.Bool(fresh_name(n.func.id)))))
+        return outs
+
     def e_Call(self, n, st):
         try:
             r = self._upfront_sum(n, st)
+            if r is None:
+                r = self._opaque_any(n, st)
         except ops.Unsupported:
             raise
         except Exception as e:  # noqa -- not a shape read here: the engine decides
@@ -1049,6 +1134,17 @@ class C11Executor(_verify.Executor):
         if r is not None:
             return r
         return super().e_Call(n, st)
+
+    # -- round 7: vacuity guard.  A contract of the consumer modules (C11_ctx) applied at a call site that leaves NO normal outcome
+    #    (its assumed postcondition is infeasible there: e.g. a helper called before the class invariant holds) would make
+    #    everything after the call vacuously true: the caller is OUT-OF-SUBSET instead (native replay decides).
+    def apply_contract(self, st, c, args, kwargs, node, cl_frame=None):
+        r = super().apply_contract(st, c, args, kwargs, node, cl_frame)
+        if not r:
+            from contracts import C11_ctx
+            if c.target.split("::")[0] in (C11_ctx.ZC, C11_ctx.ZU, C11_ctx.ENC):
+                raise ops.Unsupported(f"{self.loc(node)} contract of {c.target.split('::')[-1]} leaves no normal outcome at this call")
+        return r
 
     def mutated_refs(self, stmts, st):
         refs = super().mutated_refs(stmts, st)
@@ -1068,11 +1164,23 @@ EXTRA = [policy, propagation, configuration]
 
 TRUSTED = ["zipfile.ZipFile.infolist()/ZipInfo fields present the central directory (assumed view)"]
 ASSUMED_MODELS = ["zipfile.ZipFile (constructor, infolist, close, context manager)", "zipfile.ZipInfo.file_size/compress_size/is_dir",
-                  "io.BytesIO.tell/seek"]
+                  "io.BytesIO.tell/seek",
+                  "zipfile.ZipFile.read/open/getinfo/extract/extractall/testzip (member access: result unknown, KeyError for a missing "
+                  "member, may raise anything; its PRECONDITION `container accepted under the configured limits and open` is proved at "
+                  "every call: call-pre#member-access-on-accepted-open-container)",
+                  "zipfile.ZipFile.namelist (total on an open container, abstract name collection; same proved precondition)",
+                  "zipfile.is_zipfile (total, some Boolean, moves the stream)"]
 ASSUMPTIONS = ["PY-INT", "PY-FLOAT-REAL: size ratios compared over the reals", "PY-EXC / EXC-ANY for library calls",
                "ZipInfo sizes are non-negative integers", "configured total-size limit is non-negative",
                "policy obligations (zipfile constructor sites, validate-before-read) are decided by an interprocedural must-dataflow analysis "
                "(back end 'dataflow'; summaries for helpers, private helpers analysed in place); a fact the analysis cannot establish is "
                "`unknown` and goes to the native event monitor (replay/C11.py), only a recognised bad shape is `refuted`"]
+
+ASSUMPTIONS += ["round 7: ZipContext.__init__ / read_bytes / open_stream / read_xml_root / read_text / close, zip_utils.read_zip_text / "
+                "read_zip_xml_root and encryption.is_odf_encrypted are verified on their real bodies (class invariant `the kept handle is an "
+                "open container the guard accepted under the configured limits`); the ZipContext SUBCLASSES, xlsx_extractor.read_xlsx and the "
+                "extractor bodies are still covered only by the must-dataflow typestate + native event monitor (not deductive)",
+                "`type(obj).__name__` is some string; `any()/all()` over an unknown library value that touches no container is some Boolean "
+                "and may raise anything (pack executor, round 7)"]
 
 REPLAY_UNKNOWN = True    # undecided / out-of-subset items are searched natively (replay) before being reported UNDECIDED
